@@ -50,4 +50,105 @@ PROPS["C19"] = {
                     "a transient backend read error can be masked by a cache hit (inherent to a cache)"],
 }
 
+H2 = {"bin": "h2.test"}
+
+def handlers(pid, nq=6000, nt=120000):
+    return {"engine": "handlers", "driver": "handlers-" + pid, "bin": "h2.test", "quick": ["-n", str(nq)], "thorough": ["-n", str(nt)]}
+
+def universe(pid, nq=6000, nt=120000):
+    return {"engine": "universe", "driver": "universe-" + pid, "bin": "h2.test", "quick": ["-n", str(nq)], "thorough": ["-n", str(nt)]}
+
+SV_NOTE = "handlers modelled as write plans (Model/Server.lean): every durable write, failure ordinal and crash ordinal; tie = H2: the real server (skipStartup, FSM goroutine only, testing/synctest) and the model stepped through the same events, every observation compared (response, ordered durable writes, full durable image, volatile dump, FSM calls)"
+
+PROPS["C01"] = {
+    "lean_module": "RaftVerif.Props.C01",
+    "theorems": [
+        T("RP.election_safety", "cluster model (any size, fixed membership): two election wins in one term are by the same server, over all schedules, message loss/duplication/delay and crashes between the vote writes", "partial"),
+        T("MP.vote_once_per_term", "one server: all grants of a term name one candidate, for every request sequence, failure plan and crash point"),
+        T("OV.same_config_quorums_intersect", "two quorums (n/2+1) of one configuration intersect"),
+        T("OV.adjacent_config_majorities_intersect", "quorums of configurations differing by one voter intersect"),
+    ],
+    "engines": [handlers("C06"), universe("C06")],
+    "assumptions": ["global theorem is about the cut-down cluster model Core/Model.lean (fixed membership, no pre-vote, no leader-known refusal); its vote and AppendEntries handlers were compared with the real ones in the design round; the full handlers are tied by H2", SV_NOTE],
+    "level_note": "partial: the global theorem covers fixed membership; membership changes rest on OV.adjacent_config_majorities_intersect plus the unproved invariant that configurations in use in one term are equal or adjacent. The candidate/leader side (tally, electSelf) is not yet in the stepped model.",
+}
+
+PROPS["C02"] = {
+    "lean_module": "RaftVerif.Props.C02",
+    "theorems": [
+        T("RP.state_machine_safety", "cluster model: any two servers agree on every index up to both commit indexes", "partial"),
+        T("RP.state_machine_safety_snap", "the same up to max(commit, snapshot index), with snapshots, compaction and InstallSnapshot", "partial"),
+        T("RP.fsm_safety", "over ghost records of every entry ever handed to any FSM and every state ever restored, in every lifetime: equal index => equal entry; restored states are the agreed prefix", "partial"),
+    ],
+    "engines": [universe("C02"), handlers("C02", 3000, 60000)],
+    "assumptions": ["global theorems are about the cut-down cluster model (fixed membership); tie of the follower side = H2 universe engine with ghost truth", SV_NOTE],
+    "level_note": "partial: leader-side FSM hand-off (dispatchLogs/processLogs with futures, batching FSM) is not yet in the stepped model.",
+}
+
+PROPS["C03"] = {
+    "lean_module": "RaftVerif.Props.C03",
+    "theorems": [
+        T("RP.leader_completeness", "cluster model: an entry of term t acknowledged by a strict majority in term t is in the log of every server that wins a later term", "partial"),
+        T("RP.ack_exact", "once a commit index has reached k with entry e there, every FSM record at k is e", "partial"),
+        T("RP.ack_exact_forever", "... and stays so in every continuation", "partial"),
+    ],
+    "engines": [universe("C03")],
+    "assumptions": ["cut-down cluster model, fixed membership", SV_NOTE],
+}
+
+PROPS["C04"] = {
+    "lean_module": "RaftVerif.Props.C04",
+    "theorems": [
+        T("RP.log_matching", "cluster model: equal (index, term) in two logs => equal logs through that index, every execution", "partial"),
+    ],
+    "engines": [handlers("C04"), universe("C04")],
+    "assumptions": [SV_NOTE],
+}
+
+PROPS["C06"] = {
+    "lean_module": "RaftVerif.Props.C06",
+    "theorems": [
+        T("MP.vote_once_per_term", "all grants of a term name one candidate: every request sequence, every failure plan, every crash point between the three stable writes"),
+        T("SV.exec_prefix", "whatever write fails or wherever the process dies, the durable effect of a handler is a prefix of its write plan"),
+        T("SV.prevote_inert", "RequestPreVote writes nothing and changes no state"),
+    ],
+    "engines": [handlers("C06"), universe("C06")],
+    "assumptions": [SV_NOTE, "heartbeat fast path (a second writer of the term on the transport goroutine, F10) is not in the stepped model"],
+}
+
+PROPS["C10"] = {
+    "lean_module": "RaftVerif.Props.C10",
+    "theorems": [
+        T("SV.exec_prefix", "every crash image is the durable state after a prefix of some handler's write plan"),
+    ],
+    "engines": [universe("C10"), handlers("C10", 3000, 60000)],
+    "assumptions": [SV_NOTE, "restart = NewRaft on the surviving stores; crash images are taken at every durable-write ordinal of every handler"],
+    "level_note": "partial: recovery is tied by correspondence (model restart = NewRaft on every generated crash image) and checked by monitors; theorems about `restart` are still to be written.",
+}
+
+PROPS["C11"] = {
+    "lean_module": "RaftVerif.Props.C11",
+    "theorems": [
+        T("CP.compactRange_spec", "compaction deletes from the first index, never above the snapshot, keeps TrailingLogs entries"),
+        T("CP.compactRange_maximal", "and deletes everything those bounds allow"),
+        T("CP.removeOldLogs_all", "removeOldLogs removes the whole store"),
+        T("RP.snapshot_coverage", "cluster model: every index up to the last index is under the snapshot or in the stored window; the snapshot's (index, term) lies on the full log", "partial"),
+    ],
+    "engines": [{"engine": "compaction", "bin": "h1", "quick": ["-n", "20000"], "thorough": ["-n", "400000"]}, universe("C11")],
+    "assumptions": [SV_NOTE],
+    "level_note": "partial: takeSnapshot on the snapshot goroutine (F9 window) is not yet in the stepped model.",
+}
+
+PROPS["C14"] = {
+    "lean_module": "RaftVerif.Props.C14",
+    "theorems": [
+        T("SV.prevote_inert", "RequestPreVote writes nothing, changes no volatile state, hands nothing to the FSM - whatever is armed"),
+        T("SV.prevote_event_inert", "in the stepped world a pre-vote event leaves the whole server state unchanged"),
+        T("SV.prevote_grant_sound", "a pre-vote is granted only to an up-to-date voter, never against a known leader, never for an older term"),
+    ],
+    "engines": [handlers("C14"), universe("C14", 3000, 60000)],
+    "assumptions": [SV_NOTE],
+    "level_note": "partial: `isolated server never increases its term` needs the candidate loop (preElectSelf tally) in the model; the handler half is proved.",
+}
+
 HOOK_COMMITS = ["dfecdf5"]
